@@ -116,6 +116,11 @@ fn run_history<T: MInstant>(
             // keep offsets below 2^45 µs so that std::time arithmetic in the harness is safe
             now = (now + step as u64).min(1 << 45);
         }
+        // a clone is a framework like any other: now and then the history continues on a clone
+        if r.chance(1, 24) {
+            fw = fw.clone();
+            out.bump("histories_continued_on_a_clone");
+        }
         let e = events.len() as u64;
         let m = n as u64;
         fw.verif_set_budget((64 * (e + 1) * (m + 1)) as usize);
